@@ -864,7 +864,7 @@ NLS_LIB = [
     {"n": 2, "m": 2, "f": [[[1.0, [["x", 0, 1]]], [0.5, [["u", 0, 1]]]], [[1.0, [["x", 1, 1]]], [-0.5, [["u", 1, 1]]]]],
      "g": [[[1.0, [["x", 0, 1]]]], [[1.0, [["u", 1, 1]]]]]},                                     # time-invariant, linear
 ]
-RULE_FAMILY = {"fwd": "forward", "reset": "reset(t)", "reset0": "reset()", "systime": "systime=", "refpoint": "set_refpoint"}
+RULE_FAMILY = {"fwd": "forward", "reset": "reset(t)", "reset0": "reset()", "systime": "systime=", "refpoint": "set_refpoint", "copy": "deepcopy"}
 
 
 def _ops_valid(kind, ops):
@@ -879,7 +879,7 @@ def _ops_valid(kind, ops):
                 return False
             if k == "systime" and op[2] not in ("int", "tensor"):
                 return False
-        elif k == "reset0":
+        elif k in ("reset0", "copy"):
             pass
         elif k == "refpoint":
             hs, hi, t = op[1], op[2], op[3]
@@ -923,10 +923,14 @@ class ClockHist(Sub):
             tval = st.one_of(st.integers(0, 5), st.integers(0, 40))
             ops, forwarded, refset = [], False, False
             for _ in range(draw(st.integers(1, maxlen))):
-                k = draw(st.sampled_from(("fwd", "fwd", "fwd", "reset", "reset0", "systime", "systime", "refpoint", "refpoint", "lin")))
+                k = draw(st.sampled_from(("fwd", "fwd", "fwd", "fwd", "reset", "reset0", "systime", "systime", "refpoint", "refpoint", "lin", "copy")))
                 if k == "lin" and kind == "nls" and not refset:
                     k = "refpoint"
-                if k == "fwd":
+                if k == "copy":
+                    # the history continues on a copy.deepcopy of the system (nn.Module semantics: an independent module with the same
+                    # state).  A clock or reference point captured in a closure / hook of the ORIGINAL would be invisible otherwise.
+                    ops.append(["copy"])
+                elif k == "fwd":
                     ops.append(["fwd", draw(st.integers(0, 9999))])
                     forwarded = True
                 elif k == "reset":
@@ -999,14 +1003,32 @@ class ClockHist(Sub):
                     ok = int(r.systime) == tset
             rec.check(ok, "reset:return", "%s did not return the system (the NLS docstring example chains it): %s"
                       % (what, type(r).__name__))
+        originals = []
         for idx, op in enumerate(case["ops"]):
             k = op[0]
             tag = "op %d %s" % (idx, op)
+            for osys, ot in originals:
+                if not rec.check(_read_time(rec, osys, "original after deepcopy") == ot, "clock:original_moved_by_copy",
+                                 "before %s: the ORIGINAL system, untouched since it was deep-copied at time %d, now reads another time" % (tag, ot)):
+                    return
             for hv, ht in held.items():
                 if not rec.check(int(ht) == hv, "clock:caller_tensor_changed", "before %s: the int64 tensor the caller passed as time %d now reads %d "
                                  "(the system kept and advanced the caller's tensor)" % (tag, hv, int(ht))):
                     return
             before = ck.t
+            if k == "copy":
+                import copy as _copy
+                t_orig = _read_time(rec, system, "before deepcopy")
+                originals.append((system, t_orig))
+                with rec.sut("copy.deepcopy(system)"):
+                    system = _copy.deepcopy(system)
+                if kind != "nls":
+                    L.sys = system                     # the reference helper reads the matrices of "the system under test"
+                rec.label("deepcopied")
+                got = _read_time(rec, system, "deepcopy")
+                if not rec.check(got == ck.t, "clock:deepcopy", "a deep copy of a system at time %d reads time %d" % (ck.t, got)):
+                    return
+                continue
             if k == "fwd":
                 rs = np.random.RandomState(op[1])
                 tnow = ck.call()
